@@ -245,7 +245,30 @@ func c08Gen(tier string, emit func(any)) {
 			"package p\n\nvar v = foo(1"+strings.Repeat(", a", d)+")\n",
 			"package p\n\nfunc f() {\n"+strings.Repeat("\tfoo(1)\n\tbar(2)\n", d)+"}\n",
 			"package p\n\nvar v = 1"+strings.Repeat(" + foo(1)", d)+"\n",
-			"package p\n\nvar v = a"+strings.Repeat(".b", d)+"\n")
+			"package p\n\nvar v = a"+strings.Repeat(".b", d)+"\n",
+			"package p\n\nvar v = "+strings.Repeat("T{", d)+"foo(1)"+strings.Repeat("}", d)+"\n",
+			"package p\n\nvar v = "+strings.Repeat("a[", d)+"foo(1)"+strings.Repeat("]", d)+"\n",
+			"package p\n\nvar v = "+strings.Repeat("-", d)+"foo(1)\n",
+			"package p\n\nvar v "+strings.Repeat("[]", d)+"foo\n",
+			"package p\n\nvar v "+strings.Repeat("map[foo]", d)+"foo\n",
+			"package p\n\nvar v "+strings.Repeat("chan ", d)+"foo\n",
+			"package p\n\nvar v "+strings.Repeat("func() ", d)+"foo\n",
+			"package p\n\nvar v "+strings.Repeat("struct{ a ", d)+"foo"+strings.Repeat(" }", d)+"\n",
+			"package p\n\nfunc f() {\n"+strings.Repeat("go func() {\n", d)+"foo(1)\n"+strings.Repeat("}()\n", d)+"}\n",
+			"package p\n\nfunc f() {\n"+strings.Repeat("for {\nswitch {\ncase c:\n", d)+"foo(1)\n"+strings.Repeat("}\n}\n", d)+"}\n",
+			"package p\n\nfunc f() {\n"+strings.Repeat("select {\ncase <-c:\n", d)+"foo(1)\n"+strings.Repeat("}\n", d)+"}\n",
+			"package p\n\nfunc f() {\n"+strings.Repeat("if foo(1) {\n} else ", d)+"{\n}\n}\n")
+	}
+	// wide and deep at once: a complete binary tree of calls
+	for _, d := range []int{4, 8, 11} {
+		var tree func(n int) string
+		tree = func(n int) string {
+			if n == 0 {
+				return "foo(1)"
+			}
+			return "foo(" + tree(n-1) + ", " + tree(n-1) + ")"
+		}
+		hostileTargets = append(hostileTargets, "package p\n\nvar v = "+tree(d)+"\n")
 	}
 	for _, t := range hostileTargets {
 		if parses(t) != nil {
